@@ -91,7 +91,7 @@ def step (s : St) (w : List String) : St × String :=
       match getBlk s pid with
       | none => (s, "bad-parent")
       | some p =>
-        match applyBlock s.max pid p chs extra with
+        match applyBlock true s.max pid p chs extra with
         | .ok b => ({ s with blocks := (id, b) :: s.blocks }, showBlk b)
         | .err e => (s, "err " ++ e)
         | .panic => (s, "panic")
@@ -123,7 +123,7 @@ def step (s : St) (w : List String) : St × String :=
   | ["reopen"] =>
     match getBlk s s.stable with
     | some b =>
-      let nb := restartBlk s.max s.persist b
+      let nb := restartBlk true s.max s.persist b
       ({ s with blocks := [(s.stable, nb)] }, showBlk nb)
     | none => (s, "bad-op")
   | "rank" :: m :: toks =>
